@@ -52,7 +52,7 @@ ASSUMPTIONS = [
   'strings whose %-formatting or repetition would allocate huge results are skipped (harness resource guard)',
 ]
 TECHNIQUE = 'grammar-based generation + differential evaluation against CPython eval'
-BUDGET = {'quick': dict(examples=16000, shards=8, max_seconds=60),
+BUDGET = {'quick': dict(examples=12000, shards=8, max_seconds=60),
           'thorough': dict(examples=400000, shards=16, max_seconds=600)}
 
 parse = predicate_formula.parse_predicate_formula
@@ -188,8 +188,12 @@ class Renderer(object):
       self.labels.add('ws:backslash-continuation')
     elif choice in (9, 10):
       if self.depth > 0:
-        s = '\n' + ' ' * (w // 12 % 5)
-        self.labels.add('ws:newline-in-brackets')
+        if w // 12 % 5 == 4:
+          s = '\r\n'
+          self.labels.add('ws:crlf-in-brackets')
+        else:
+          s = '\n' + ' ' * (w // 12 % 5)
+          self.labels.add('ws:newline-in-brackets')
       else:
         s = ' '
     else:
@@ -505,6 +509,21 @@ def _guard_mult(a, b):
         raise Huge()
 
 
+def _has_callable(v, depth=0):
+  if callable(v):
+    return True
+  if isinstance(v, (list, tuple)) and depth < 4:
+    return any(_has_callable(x, depth + 1) for x in v)
+  return False
+
+
+def _guard_identity(a, b):
+  """Equality of bound methods depends on the identity of the object they are bound to, and CPython
+  merges equal constants of one code object: '"a".lower == "a".lower' is a CPython artefact like `is`."""
+  if _has_callable(a) or _has_callable(b):
+    raise Huge('identity')
+
+
 def _guard_mod(a):
   if isinstance(a, str) and '%' in a and any(ch.isdigit() or ch == '*' for ch in a):
     raise Huge()
@@ -551,6 +570,8 @@ def ev(node, envd):
     if t == 'Mod':
       _guard_mod(a)
       return a % b
+    if t in ('Eq', 'NotEq', 'In', 'NotIn'):
+      _guard_identity(a, b)
     if t == 'Eq': return a == b
     if t == 'NotEq': return a != b
     if t == 'Lt': return a < b
@@ -667,6 +688,16 @@ def call_parser(text):
     return 'other', '%s: %s' % (type(e).__name__, e)
 
 
+def other_signature(prefix, text, res):
+  """Signature for a non-SyntaxError exception from the parser. One known root cause is singled out:
+  the comment scan re-tokenises the text with tokenize, which chokes on lone carriage returns that
+  ast.parse accepted."""
+  cls_name = res.split(':')[0]
+  if cls_name in ('TokenError', 'UnicodeDecodeError') and '\r' in text.replace('\r\n', ''):
+    return 'C40:comment-scan-raises:lone-carriage-return'
+  return '%s-%s' % (prefix, cls_name)
+
+
 def differential(out, sigp, gtext, ptext, tree, envs, detail):
   """Evaluate tree vs python on each env. -> number of envs giving a value on both sides."""
   try:
@@ -682,8 +713,8 @@ def differential(out, sigp, gtext, ptext, tree, envs, detail):
     envd = build_env(ed)
     try:
       got = run_tree(tree, envd)
-    except Huge:
-      out.cls('eval:skipped-huge')
+    except Huge as h:
+      out.cls('eval:skipped-identity-dependent' if h.args else 'eval:skipped-huge')
       continue
     except BadTree as e:
       out.fail('C40:%s:malformed-tree' % sigp, 'tree for %r has an undocumented shape: %s' % (gtext, e),
@@ -717,7 +748,8 @@ def run_subset(case):
   kind, res = call_parser(gtext)
   detail = {'text': gtext}
   if kind != 'tree':
-    return out.fail('C40:subset:rejected-%s' % kind, 'subset expression %r was rejected: %s' % (gtext, res), detail)
+    sig = other_signature('C40:subset:rejected', gtext, res) if kind == 'other' else 'C40:subset:rejected-%s' % kind
+    return out.fail(sig, 'subset expression %r was rejected: %s' % (gtext, res), detail)
   tree = res
   try:
     js = json.dumps(tree)
@@ -882,14 +914,14 @@ def run_nonsubset(case):
              'unsupported construct %s in %r did not raise SyntaxError; tree: %s' % (fid, gtext, shown),
              {'text': gtext, 'fragment': fid, 'tree': shown})
   elif kind != 'syntax':
-    out.fail('C40:unsupported-raises-other:%s' % (group or fid), '%r raised %s' % (gtext, res), {'text': gtext})
+    out.fail(other_signature('C40:unsupported-raises', gtext, res), '%r raised %s' % (gtext, res), {'text': gtext})
   else:
     out.cls('rejected:syntax-error')
   out['nontrivial'] = True
   return out
 
 
-SOUP = ['rec', 'user', 'newRec', 'choice', 'x', 'f', '$a', '$s', '.a', '.s', '.lower', '.upper', '(', ')', '[', ']', ',',
+SOUP = ['\r', '\r\n', 'rec', 'user', 'newRec', 'choice', 'x', 'f', '$a', '$s', '.a', '.s', '.lower', '.upper', '(', ')', '[', ']', ',',
         'and', 'or', 'not', 'in', 'is', 'None', 'True', 'False', '==', '!=', '<', '<=', '>', '>=', '+', '-', '*', '/',
         '%', '**', '//', '=', ':', '{', '}', 'if', 'else', 'lambda', 'for', '0', '1', '2.5', "'a'", '"b"', "''", '#c',
         '\n', ' ', '$', '.', '~', '|', '&', 'k0=', '*', '@', ';', '\\', "'", '"', 'é', '1e999', "b'x'", '1j', '...']
@@ -923,8 +955,10 @@ def run_fuzz(case):
     out.cls('fuzz:recursion')
     return out
   if kind == 'other':
-    cls_name = res.split(':')[0]
-    return out.fail('C40:fuzz:raises-%s' % cls_name, '%r raised %s instead of SyntaxError' % (text, res), {'text': text})
+    out.cls('fuzz:python-accepts' if python_ok else 'fuzz:python-rejects')
+    return out.fail(other_signature('C40:fuzz:raises', text, res),
+                    '%r raised %s instead of SyntaxError%s' % (text, res, ' (Python accepts this text)' if python_ok else ''),
+                    {'text': text, 'python_accepts': python_ok})
   tree = res
   out.cls('fuzz:tree')
   try:
